@@ -21,7 +21,7 @@ LEVEL = "exploration"
 SHARDS = {"quick": 16, "thorough": 16}
 FLOOR = {"quick": 150, "thorough": 3000}
 REQUIRED_COUNTERS = ["tree_pairs_compared", "fresh_process_generations", "hash_seeds_distinct", "noop_reruns", "files_mtime_checked",
-                     "tamper_edit_checks", "tamper_delete_checks", "show_diffs_contract_evals", "explicit_core_layouts", "clock_shifted_runs"]
+                     "tamper_edit_checks", "tamper_delete_checks", "show_diffs_contract_evals", "explicit_core_layouts", "clock_shifted_runs", "prior_run_scenarios"]
 RULE = ("clean documents biased to what makes order matter (many schemas/imports, several path variables, colliding operationIds, inline "
         "enums, streaming) x layouts (embedded default / explicit core) x PYTHONHASHSEED {0,1,2,random} x {fresh, warm, clock-shifted, "
         "other root} + non-force re-run + tampering; case = (document, layout, variant); non-trivial = the two executions compared "
@@ -153,6 +153,32 @@ def run_doc(ctx: Ctx, d: specgen.Doc, n: int, layout: tuple[str, str | None]) ->
         dd = diff_trees(base, digest(root_w, tops))
         if dd:
             rec.violation(f"determinism:warm_vs_fresh:{classify_changed(dd)}", feats, dict(case, variant="warm"), dd)
+    # prior run with a DIFFERENT document into the same root (force): the result must not remember it
+    import copy as _copy
+
+    prev = _copy.deepcopy(d.doc)
+    for pth, item in prev["paths"].items():
+        for meth, op in item.items():
+            if isinstance(op, dict) and "responses" in op:
+                op["responses"].setdefault("418", {"description": "teapot"})
+                op["responses"].setdefault("507", {"description": "full"})
+    prev["components"]["schemas"]["OnlyInPreviousRun"] = {"type": "object", "properties": {"x": {"type": "string"}}}
+    root_p = work / "prior"
+    spec_prev = genrun.write_spec(prev, work / "spec-prev")
+    rp1 = fresh(ctx, spec_prev, root_p, pkg, core, "0")
+    if rp1.get("ok"):
+        rp2 = fresh(ctx, spec, root_p, pkg, core, "0")
+        rec.count("prior_run_scenarios")
+        rec.case(dict(case, variant="after a prior run with another document"), nontrivial=True)
+        rec.count("tree_pairs_compared")
+        if not rp2.get("ok"):
+            rec.violation("determinism:prior_run:generation_fails", feats, dict(case, variant="prior_run"), str(rp2.get("error"))[:200])
+        else:
+            got = digest(root_p, tops)
+            # the registry file legitimately lists clients; compare everything else byte for byte, and the registry by content
+            dd = diff_trees({k: v for k, v in base.items()}, {k: v for k, v in got.items()})
+            if dd:
+                rec.violation(f"determinism:prior_run:{classify_changed(dd)}", feats, dict(case, variant="prior_run"), dd)
     # clock shifted
     root_c = work / "clock"
     rc = fresh(ctx, spec, root_c, pkg, core, "0", clock_shift=86400 * 400 + 12345)
